@@ -25,7 +25,7 @@ RULE = ("full product object kind {VAR, VAR without ObjectType, ObjectType 2, RE
         "with a non-default spelling, a relative value, a limit or a structured object")
 ASSUMPTIONS = [
     "well-formed = unique names without ';' or leading/trailing blanks, object (parent) names without '.' (member names may contain dots), dense name lists, no octal spellings, no EPF",
-    "negative defaults are spelled in decimal (two's complement hex is defined for limits only)",
+    "limits of REAL objects are spelled as decimal fractions",
     "$NODEID-relative values are not compared when no node id is in force",
     "for unnamed CompactSubObj arrays the generated member names, their ParameterValue and $NODEID flag are not compared (kind, type, access, PDO mapping, default, limits, sub-index are)",
 ]
@@ -118,6 +118,11 @@ def build_doc(kind, t, dname, lname, rot, style_rot, value_mode, access, node_sr
             var["low"] = lo if rot % 2 else (lo // 3 if lo else 1)
         if lname.startswith(("high", "both")):
             var["high"] = hi if rot % 2 else max(hi // 3, 2)
+    if t in W.REAL and lname in ("low", "high", "both"):
+        if lname != "high":
+            var["low"] = (-2.5, -1e-3)[rot % 2]
+        if lname != "low":
+            var["high"] = (1.0e6, 0.75)[rot % 2]
     dcf = value_mode != "absent"
     if value_mode == "abs":
         var["value"] = make_default("max" if dname != "max" else "zero", t, rot)
@@ -239,10 +244,12 @@ def compare(od, doc, node_arg, st, rc, sigp):
                 bad("relative-flag", v["default"][0] == "rel", m.relative)
             if m.min != v.get("low"):
                 bad(f"low-limit:w{W.SIGNED_WIDTH.get(v['type'], W.UNSIGNED_WIDTH.get(v['type']))}:"
-                    f"{'signed' if v['type'] in W.SIGNED_WIDTH else 'unsigned'}", v.get("low"), m.min)
+                    f"{'signed' if v['type'] in W.SIGNED_WIDTH else 'real' if v['type'] in W.REAL else 'unsigned'}",
+                    v.get("low"), m.min)
             if m.max != v.get("high"):
                 bad(f"high-limit:w{W.SIGNED_WIDTH.get(v['type'], W.UNSIGNED_WIDTH.get(v['type']))}:"
-                    f"{'signed' if v['type'] in W.SIGNED_WIDTH else 'unsigned'}", v.get("high"), m.max)
+                    f"{'signed' if v['type'] in W.SIGNED_WIDTH else 'real' if v['type'] in W.REAL else 'unsigned'}",
+                    v.get("high"), m.max)
     # document level
     if od.node_id != node_id and (doc.get("node_id") is not None or doc.get("baudrate") is not None):
         bad("node-id", node_id, od.node_id)
@@ -267,7 +274,8 @@ def run_product(case, st):
     for di, dname in enumerate(DEFAULTS):
         for li, lname in enumerate(LIMITS):
             if type_range(t) is None and (lname != "none" or dname.startswith("rel")):
-                if not (lname == "none" and dname == "rel0"):
+                real_limits = t in W.REAL and lname in ("low", "high", "both") and not dname.startswith("rel")
+                if not (lname == "none" and dname == "rel0") and not real_limits:
                     continue
             if case["full"]:
                 for ai, access in enumerate(ACCESS):
